@@ -19,6 +19,7 @@ import (
 	"errors"
 	"fmt"
 	"io"
+	"io/fs"
 	"log"
 	"net"
 	"net/http"
@@ -635,7 +636,7 @@ func (r *runner) reloadHook(i int) func(context.Context) error {
 		}
 		switch b {
 		case bErr:
-			return errors.New("reload hook failed (injected)")
+			return errInjected
 		case bPanic:
 			panic("reload hook panic (injected)")
 		}
@@ -720,20 +721,21 @@ func (r *runner) start() error {
 	return r.a.Start(r.ctx)
 }
 
+// errInjected is what a failing OnStart / OnReload hook returns.
+var errInjected = errors.New("hook failed (injected)")
+
+// classify maps the result of Start to the small enum of the case line. By what the error *is*
+// (errors.Is through the %w chain), never by its text: rewording a message must not alarm.
 func classify(err error) int {
-	if err == nil {
-		return 0
-	}
-	s := err.Error()
 	switch {
-	case strings.Contains(s, "startup failed"):
-		return 1
-	case strings.Contains(s, "failed to start observability"):
-		return 4
-	case strings.Contains(s, "server failed to start"), strings.Contains(s, "failed to listen"):
-		return 2
-	case strings.Contains(s, "forced to shutdown"):
-		return 3
+	case err == nil:
+		return 0
+	case errors.Is(err, errInjected), errors.Is(err, context.Canceled):
+		return 1 // an OnStart hook returned an error / gave up with its cancelled context
+	case errors.Is(err, syscall.EADDRINUSE), errors.Is(err, syscall.EADDRNOTAVAIL), errors.Is(err, fs.ErrNotExist):
+		return 2 // the server could not be started: bind failed, key pair unreadable
+	case errors.Is(err, context.DeadlineExceeded):
+		return 3 // the drain exceeded the shutdown timeout
 	}
 	return 5
 }
@@ -823,7 +825,7 @@ func (r *runner) build() error {
 			var err error
 			switch b {
 			case bErr:
-				err = errors.New("start hook failed (injected)")
+				err = errInjected
 			case bBlock:
 				r.signal()
 				<-ctx.Done()
